@@ -120,7 +120,7 @@ EVENTS = ['0 = E "section a"', '4 = E "lyric b"', '11 = E "t"']
 CHARTS = {
     "no-tracks": mk(res=4, sync=SYNC, events=EVENTS),
     "one-track": mk(res=4, sync=SYNC, events=EVENTS, tracks={"ExpertSingle": ["0 = N 0 0", "5 = N 1 3", "5 = N 2 7", "12 = N 7 0", "30 = N 3 2"]}),
-    "several": mk(res=4, sync=SYNC, events=EVENTS, tracks=[("ExpertSingle", ["0 = N 0 0", "9 = N 1 4"]), ("EasySingle", ["2 = N 2 0"]), ("ExpertDoubleBass", ["3 = N 3 1", "3 = N 4 1"]), ("HardKeyboard", ["8 = E solo"])]),
+    "several": mk(res=4, sync=SYNC, events=EVENTS, tracks=[("ExpertSingle", ["0 = N 0 0", "9 = N 1 4"]), ("EasySingle", ["2 = N 2 0"]), ("ExpertDoubleBass", ["3 = N 3 1", "3 = N 4 1"]), ("HardKeyboard", ["8 = E solo"]), ("HardSingle", ["1 = N 1 0"]), ("MediumKeyboard", []), ("EasyDoubleBass", ["4 = N 0 0"])]),
     "noteless": mk(res=4, sync=SYNC, events=EVENTS, tracks=[("HardDrums", ["3 = S 2 4", "5 = E solo"]), ("ExpertSingle", ["1 = N 0 0", "2 = N 1 0"])]),
     # accepted although its lines are not in tick order (every out-of-order tick stays in the current tempo region)
     "unsorted": mk(res=4, sync=["0 = TS 4", "0 = B 120000", "10 = B 60000", "25 = TS 3", "12 = TS 5"], events=['11 = E "section b"', '4 = E "lyric x"', '30 = E "lyric z"', '12 = E "lyric y"', '20 = E "t"', '11 = E "u"'], tracks=[("ExpertSingle", ["0 = N 0 0", "30 = N 1 2", "12 = N 2 0", "20 = N 3 1", "20 = S 2 5", "11 = S 2 1", "28 = E b", "13 = E a"]), ("HardDrums", ["14 = N 1 0", "11 = N 2 0"])]),
@@ -133,7 +133,10 @@ text = {text!r}
 ops = {ops!r}   # (name, expression) applied in this order to chart c
 c = Chart.from_file(io.StringIO(text)); twin = Chart.from_file(io.StringIO(text))
 def state():
-    return (observe(c), c == twin, twin == c)
+    o = observe(c)
+    o["track_map_order"] = [[i.name, [d.name for d in dd]] for i, dd in c.instrument_tracks.items()]
+    o["str"], o["repr"] = str(c), repr(c)
+    return (o, c == twin, twin == c)
 s0 = state()
 bad = 0
 for name, expr in ops:
@@ -177,6 +180,10 @@ def plan(tier, seed):
 
 def fingerprint(c, twin):
     o = impl.observe(c)
+    # order-sensitive public data: iteration order of the track map and the chart's own rendering
+    o["track_map_order"] = [[i.name, [d.name for d in dd]] for i, dd in c.instrument_tracks.items()]
+    o["str"] = str(c)
+    o["repr"] = repr(c)
     return o, (c == twin), (twin == c)
 
 
